@@ -96,6 +96,88 @@ def edit(rng, svcs, rules):
     return svcs, rules, kinds
 
 
+DIRECTED = ["crit-add-then-change", "rule-add-then-change", "svc-add-then-change", "svc-remove-then-add", "svc-remove-all-then-add", "svc-change-and-back", "svc-readd-same", "rule-rename-and-back", "rule-remove-then-add",
+            "crit-remove-then-add", "svc-swap-names"]
+
+
+def directed_chain(rng, kind, svcs, rules):
+    """Multi-step edit sequences whose effect depends on what an earlier reload left behind."""
+    names = list(SVC_NAMES)
+    rng.shuffle(names)
+    a, b, c = names[:3]
+    pa, pb, pc = (rng.choice(proto.PROTOS) for _ in range(3))
+    if not rules:
+        rules = c11.gen_rules(rng)
+    r0 = copy.deepcopy(rules)
+    if kind == "svc-remove-then-add":
+        steps = [[(a, pa), (b, pb)], [(b, pb)], [(b, pb), (c, pc)]]
+        return [(s, r0, [kind] if i else []) for i, s in enumerate(steps)]
+    if kind == "svc-remove-all-then-add":
+        steps = [[(a, pa)], [], [(c, pc)]]
+        return [(s, r0, [kind] if i else []) for i, s in enumerate(steps)]
+    if kind == "svc-change-and-back":
+        pa2 = rng.choice([p for p in proto.PROTOS if p != pa])
+        steps = [[(a, pa), (b, pb)], [(a, pa2), (b, pb)], [(a, pa), (b, pb)]]
+        return [(s, r0, [kind] if i else []) for i, s in enumerate(steps)]
+    if kind == "svc-readd-same":
+        pa2 = rng.choice(proto.PROTOS)
+        steps = [[(a, pa), (b, pb)], [(b, pb)], [(a, pa2), (b, pb)]]
+        return [(s, r0, [kind] if i else []) for i, s in enumerate(steps)]
+    if kind == "svc-swap-names":
+        steps = [[(a, pa), (b, pb)], [(a, pb), (b, pa)], [(b, pa), (c, pb)]]
+        return [(s, r0, [kind] if i else []) for i, s in enumerate(steps)]
+    sv = [(a, pa), (b, pb)]
+    if kind == "svc-add-then-change":
+        pc2 = rng.choice([p for p in proto.PROTOS if p != pc])
+        steps = [sv, sv + [(c, pc)], sv + [(c, pc2)]]
+        return [(s_, r0, [kind] if i else []) for i, s_ in enumerate(steps)]
+    if kind == "crit-add-then-change":
+        # reload 1 adds a criterion to an existing rule, reload 2 edits that criterion in place
+        r1 = copy.deepcopy(r0)
+        key = rng.choice(["account", "address", "username", "hostname"])
+        pool = {"account": c11.ACCT_PATS, "address": c11.ADDR_PATS, "username": c11.USER_PATS, "hostname": c11.HOST_PATS}[key]
+        base = copy.deepcopy(r0)
+        base[0].pop(key, None)
+        r1 = copy.deepcopy(base)
+        r1[0][key] = rng.choice(pool)
+        r2 = copy.deepcopy(r1)
+        r2[0][key] = rng.choice([x for x in pool if x != r1[0][key]])
+        return [(sv, base, []), (sv, r1, [kind]), (sv, r2, [kind])]
+    if kind == "rule-add-then-change":
+        # reload 1 adds a rule, reload 2 changes its class / a criterion in place
+        new = [r for r in c11.gen_rules(rng) if r["name"].lower() not in [x["name"].lower() for x in r0]]
+        if not new:
+            new = [{"name": "zzz9", "class": "late"}]
+        r1 = copy.deepcopy(r0) + [dict(new[0], **{"class": "added"})]
+        r2 = copy.deepcopy(r1)
+        r2[-1]["class"] = "changed"
+        if rng.random() < 0.5:
+            r2[-1]["address"] = rng.choice(c11.ADDR_PATS)
+        return [(sv, r0, []), (sv, r1, [kind]), (sv, r2, [kind])]
+    if kind == "rule-rename-and-back":
+        r1 = copy.deepcopy(r0)
+        free = [n for n in c11.NAMES if n.lower() not in [x["name"].lower() for x in r1]]
+        r1[0]["name"] = rng.choice(free)
+        return [(sv, r0, []), (sv, r1, [kind]), (sv, copy.deepcopy(r0), [kind])]
+    if kind == "rule-remove-then-add":
+        r1 = copy.deepcopy(r0)[1:]
+        r2 = copy.deepcopy(r1) + [dict(r0[0], **{"class": "readded"})]
+        return [(sv, r0, []), (sv, r1, [kind]), (sv, r2, [kind])]
+    # crit-remove-then-add
+    r1 = copy.deepcopy(r0)
+    victim = r1[0]
+    key = next((k for k in ("account", "address", "username", "hostname", "xreply_ok") if k in victim), None)
+    if key is None:
+        victim["address"] = "10.1.2.0/24"
+        r0 = copy.deepcopy(r1)
+        key = "address"
+    old = victim.pop(key)
+    r2 = copy.deepcopy(r1)
+    pool = {"account": c11.ACCT_PATS, "address": c11.ADDR_PATS, "username": c11.USER_PATS, "hostname": c11.HOST_PATS, "xreply_ok": ["login.svc", "drone.svc"]}[key]
+    r2[0][key] = rng.choice(pool)
+    return [(sv, r0, []), (sv, r1, [kind]), (sv, r2, [kind])]
+
+
 def normalise(line):
     line = re.sub(r"\b([0-9a-f]+)_[0-9a-f]+\b", r"\1_S", line)
     return line
@@ -129,9 +211,12 @@ def _worker(a):
     chain = []
     svcs, rules = gen_config(rng)
     chain.append((svcs, rules, []))
-    for _ in range(a["nreloads"]):
-        ns, nr, kinds = edit(rng, chain[-1][0], chain[-1][1])
-        chain.append((ns, nr, kinds))
+    if a.get("directed"):
+        chain = directed_chain(rng, a["directed"], svcs, rules)
+    else:
+        for _ in range(a["nreloads"]):
+            ns, nr, kinds = edit(rng, chain[-1][0], chain[-1][1])
+            chain.append((ns, nr, kinds))
     cfgs = [proto.Config(sv, timeout=3600, rules=ru, use_class=True) for sv, ru, k in chain]
     probe_seed = rng.randrange(1 << 30)
     nprobes = a["nprobes"]
@@ -203,7 +288,7 @@ def _worker(a):
                     "edits: %s\nold config:\n%s\nnew config:\n%s" % (
                         "x%d" % (len(cfgs) - 1), x, y, [ks for _, _, ks in chain[1:]], cfgs[-2].text("<moddir>"), cfgs[-1].text("<moddir>")))
             res["viol"].append(("C17", "stale-" + area, "stale-%s:%s" % (area, "+".join(kinds) or "none"), text,
-                                {"seed": seed, "nreloads": a["nreloads"], "nprobes": nprobes, "npre": a["npre"]}))
+                                {"seed": seed, "nreloads": a["nreloads"], "nprobes": nprobes, "npre": a["npre"], "directed": a.get("directed")}))
             break
     return res
 
@@ -216,6 +301,10 @@ def run(chk, tier, scale=1.0):
     for i in range(npairs + ntriples):
         rng = random.Random("c17/%d/%d" % (chk.seed, i))
         jobs.append(dict(build=b, seed=rng.randrange(1 << 30), nreloads=1 if i < npairs else 2, nprobes=14, npre=rng.choice([0, 2, 4])))
+    ndir = int((64 if tier == "quick" else 1600) * scale)
+    for i in range(ndir):
+        rng = random.Random("c17d/%d/%d" % (chk.seed, i))
+        jobs.append(dict(build=b, seed=rng.randrange(1 << 30), nreloads=2, nprobes=14, npre=rng.choice([0, 2, 4]), directed=DIRECTED[i % len(DIRECTED)]))
     for r in vcommon.pmap(_worker, jobs):
         chk.add_case(r["hash"], r["nontrivial"])
         edits = r["stats"].pop("edits")
@@ -229,7 +318,7 @@ def run(chk, tier, scale=1.0):
     chk.rule = ("(old, new) configuration pairs and (old, mid, new) triples over 5 service names x 4 protocols and random rule tables; edits: add / remove / change-in-place "
                 "a service's protocol, add / remove / rename a rule, change its class, add / remove / change a criterion, alone and combined; daemon A is started on old, serves "
                 "some clients (finished, or abandoned while a service owes an answer), is reloaded by a real SIGUSR1 (completion seen through the guarded marker), then gets 14 "
-                "probe clients and `? config`; daemon B is started directly on new and gets the same probes; every probe step's output must be equal (serials normalised, S lines "
+                "probe clients and `? config`; plus directed three-step chains (remove then add a service, remove all then add, change and change back, re-add the same name, swap names, rename a rule and back, remove then re-add a rule / criterion); daemon B is started directly on new and gets the same probes; every probe step's output must be equal (serials normalised, S lines "
                 "and unconfigured '-' entries ignored); distinct = seed of the pair; non-trivial = at least one edit applied")
     chk.require("reloads", 150 * min(1.0, scale))
     chk.require("probe_steps_compared", 10000 * min(1.0, scale))
@@ -239,7 +328,7 @@ def run(chk, tier, scale=1.0):
 def replay(chk, rep):
     b = prun.build_daemon("c17-replay")
     w = rep["witness"]
-    r = _worker(dict(build=b, seed=w["seed"], nreloads=w["nreloads"], nprobes=w["nprobes"], npre=w["npre"]))
+    r = _worker(dict(build=b, seed=w["seed"], nreloads=w["nreloads"], nprobes=w["nprobes"], npre=w["npre"], directed=w.get("directed")))
     for v in r["viol"]:
         print(v[3])
     return 1 if r["viol"] else 0
